@@ -233,7 +233,11 @@ func oracle(o *observation, margin, guard int64) []problem {
 			onTime(o.Ops[minInt(k, n-1)].B, "late")
 		}
 	default:
-		ps = append(ps, problem{"infra", "unexpected-close-cause", "close cause " + o.Cause})
+		if o.StrictCause {
+			ps = append(ps, problem{"oracle", "unexpected-close-error", fmt.Sprintf("the connection was closed at %d us with the error %q, which is neither of the two timeout errors (nobody but the deadline timers closes this connection)", o.Tau, strings.TrimPrefix(o.Cause, "other:"))})
+		} else {
+			ps = append(ps, problem{"infra", "unexpected-close-cause", "close cause " + o.Cause})
+		}
 	}
 	return ps
 }
